@@ -19,5 +19,13 @@ func controlsC11() []Control {
 		{Name: "engine hook does not publish the new state", Expect: "R8", Mutate: replaceIn("(*tableEngine).updateGameState", "\t\tte.emitTableStateEvent(TableStateEvent_GameUpdated)\n", "", 0)},
 		{Name: "hand keeps queueing states only after it was closed", Expect: "R8", Mutate: replaceIn("(*game).updateGameState", "if g.isClosed {", "if !g.isClosed {", 0)},
 		{Name: "dispatcher skips the engine hook", Expect: "R8", Mutate: replaceIn("(*game).handleGameState", "\tg.onGameStateUpdated(gs)\n", "", 0)},
+		{Name: "ante handler does not allow the asked players to pay", Expect: "R9", Mutate: replaceIn("(*game).onAnteRequested", "\t\tp.AllowAction(Action_Pay)\n", "", 0)},
+		{Name: "pay allowance withdrawn only from players who do not have it", Expect: "R9", Mutate: replaceIn("(*game).onBlindsRequested", "if funk.Contains(p.AllowedActions, Action_Pay) {", "if !funk.Contains(p.AllowedActions, Action_Pay) {", 0)},
+		{Name: "ante completion reports through the blinds hook", Expect: "R9", Mutate: replaceIn("(*game).onAnteRequested", "g.onAntesReceived(gameState)", "g.onBlindsReceived(gameState)", 0)},
+		{Name: "ante collection skipped when an ante is configured", Expect: "R9", Mutate: replaceIn("(*game).onAnteRequested", "if gs.Meta.Ante == 0 {", "if gs.Meta.Ante != 0 {", 0)},
+		{Name: "state-updated setter stores into another slot", Expect: "R8", Mutate: replaceIn("(*game).OnGameStateUpdated", "g.onGameStateUpdated = fn", "g.onAntesReceived = fn", 0)},
+		{Name: "hand never launches the queue consumer", Expect: "R8", Mutate: replaceIn("(*game).Start", "\tg.runGameStateUpdater()\n", "", 0)},
+		{Name: "dispatcher calls the handler only when none exists", Expect: "R8", Mutate: replaceIn("(*game).handleGameState", "if handler, exist := handlers[event]; exist {", "if handler, exist := handlers[event]; !exist {", 0)},
+		{Name: "pay routed by the round name instead of the event", Expect: "R5", Mutate: replaceIn("(*game).Pay", "pokerface.GameEventBySymbol[g.gs.Status.CurrentEvent]", "pokerface.GameEventBySymbol[g.gs.Status.Round]", 0)},
 	}
 }
